@@ -98,9 +98,30 @@ def Json.isNull : Json → Bool
 
 /-! ## gozod schemas (the JSON-representable fragment) -/
 
+/-- the user regular expressions `String().Regex` is exercised with (harness/cmd/c07/build.go
+    `rxTable` has the same names and texts).  Each has a hand-written meaning (`Rx.holds`), tied to Go's
+    `regexp` (Parse) and to the validator's `pattern` by the correspondence. -/
+inductive Rx
+  | lw   -- ^[a-z]+$
+  | dg   -- ^[0-9]*$
+  | hd   -- [0-9]
+  | ab   -- ^(a|b)
+  | nx   -- ^[^x]*$
+  deriving DecidableEq, Repr
+
+def Rx.holds : Rx → Str → Bool
+  | .lw, s => !s.isEmpty && s.all (fun c => 97 ≤ c && c ≤ 122)
+  | .dg, s => s.all (fun c => 48 ≤ c && c ≤ 57)
+  | .hd, s => s.any (fun c => 48 ≤ c && c ≤ 57)
+  | .ab, s => match s with
+      | c :: _ => c == 97 || c == 98
+      | [] => false
+  | .nx, s => s.all (fun c => c != 120)
+
 inductive StrCk
   | min (n : Nat) | max (n : Nat) | len (n : Nat)
   | sw (s : Str) | ew (s : Str) | inc (s : Str) | lower | upper | trim
+  | re (r : Rx)
   deriving DecidableEq, Repr
 
 inductive NumCk
@@ -198,6 +219,7 @@ def StrCk.holds : StrCk → Str → Bool
   | .lower, s => noUpper s
   | .upper, s => noLower s
   | .trim, _ => true
+  | .re r, s => r.holds s
 
 /-- checks run in order; `Trim` overwrites the value seen by later checks.  Returns the final
     value when every check held. -/
@@ -442,6 +464,7 @@ inductive Pat
   | has (s : Str)      -- lit
   | noUp               -- ^[^A-Z]*$
   | noLow              -- ^[^a-z]*$
+  | rx (r : Rx)        -- a user regular expression (`Regex`), text = `re.String()`
   deriving DecidableEq, Repr
 
 mutual
@@ -514,6 +537,7 @@ def Pat.holds : Pat → Str → Bool
   | .has p, s => isInfix p s
   | .noUp, s => noUpper s
   | .noLow, s => noLower s
+  | .rx r, s => r.holds s
 
 /-- the format names FromJSONSchema maps to a dedicated schema (`getFormatSchema`); any other
     format is an annotation. -/
@@ -657,6 +681,7 @@ def StrBag.step (b : StrBag) : StrCk → StrBag
   | .lower => b.addPat .noUp
   | .upper => b.addPat .noLow
   | .trim => b
+  | .re r => b.addPat (.rx r)
 
 def strBag (cks : List StrCk) : StrBag := cks.foldl StrBag.step {}
 
@@ -1076,5 +1101,48 @@ def instFieldsOK : JsonFields → Bool
   | .nil => true
   | .cons k v fs => asciiStr k && instOK v && instFieldsOK fs
 end
+
+/-! ## option sets and conversion histories
+
+`ToJSONSchema(schema, opts)` builds a fresh `converter` per call (`newConverter`: seen / counts / refs /
+defs / idCache / unwrapCache are all allocated there) and `annotatedInternals` hands the Bag consumers
+(`applyStringBag` deletes `patterns`, `convertFile` deletes the size keys) a scratch copy of the schema's
+Bag.  So the document is a function of (options, schema) and of nothing else; `Persist` is what a call
+leaves behind for the next one, kept as an explicit type so that the history theorems in
+`Proofs/C07.lean` are statements about call sequences (the correspondence replays such sequences on
+live schema instances: k-th conversions after conversions of other schemas, of the instance's
+children / parents / siblings, under other option sets). -/
+
+structure Opts where
+  ioInput : Bool := false        -- IO: "input" (Pipe / Transform / Default members only: none in this fragment)
+  unrepAny : Bool := false       -- Unrepresentable: "any"
+  reusedRef : Bool := false      -- Reused: "ref" (composite nodes move to `$defs`; documents are compared with `$ref` inlined)
+  cyclesThrow : Bool := false    -- Cycles: "throw"
+  draft07 : Bool := false        -- Target (read by nothing in jsonschema/to.go)
+  privateMeta : Bool := false    -- Metadata: a private registry instead of the global one (where the IDs live)
+  deriving DecidableEq, Repr
+
+/-- one call.  `dup` = one live instance occurs twice inside the schema: `convert` finds it in `seen` on
+    the second visit, which `Cycles:"throw"` reports as a circular reference (conversion error: outside
+    the property).  Otherwise the document — modulo `$ref` inlining — is `toDoc s` under every option set. -/
+def convertO (o : Opts) (dup : Bool) (s : S) : Option JS :=
+  if o.cyclesThrow && dup then none else some (toDoc s)
+
+structure Conv where
+  opts : Opts
+  dup : Bool
+  schema : S
+
+/-- what one call leaves behind for the next: nothing a conversion reads. -/
+structure Persist where
+  calls : Nat := 0
+
+def convertCall (st : Persist) (c : Conv) : Option JS × Persist :=
+  (convertO c.opts c.dup c.schema, { calls := st.calls + 1 })
+
+/-- the documents of a sequence of calls, in order. -/
+def runHistory (st : Persist) : List Conv → List (Option JS)
+  | [] => []
+  | c :: cs => (convertCall st c).1 :: runHistory (convertCall st c).2 cs
 
 end Gozod.Jsc
